@@ -604,14 +604,48 @@ func runC14(c *Ctx) {
 			checkDisjoint(en, "a parameter separator of parseArgs ("+sepDesc+")", func(v int64) bool { return isSep(rune(v)) })
 		}
 		// white space trimmed from the ends of the argument string by the server
-		trims := false
+		// (the trim set is read from the code: strings.TrimSpace trims every Unicode space, strings.Trim/TrimRight
+		// with a constant cutset trims exactly that set; helpers of the three functions are followed one level)
+		unicodeTrim, cutset, unknownTrim := false, "", false
+		var scan func(g *ssa.Function, depth int)
+		scan = func(g *ssa.Function, depth int) {
+			allInstrs(g, func(in ssa.Instruction) {
+				cc := callCommon(in)
+				if cc == nil {
+					return
+				}
+				callee := staticCallee(cc)
+				if callee == nil {
+					return
+				}
+				switch qualFuncName(callee) {
+				case "strings.TrimSpace":
+					unicodeTrim = true
+				case "strings.Trim", "strings.TrimRight":
+					if k, ok := constString(cc.Args[1]); ok {
+						cutset += k
+					} else {
+						unknownTrim = true
+					}
+				case "strings.TrimFunc", "strings.TrimRightFunc":
+					unknownTrim = true
+				default:
+					if depth == 0 && inSmtp(callee) && !isExported(callee) && callee.Blocks != nil && callee.Signature.Recv() == nil && len(callee.Params) == 1 {
+						scan(callee, 1) // a one-argument string helper such as trimASCIISpace
+					}
+				}
+			})
+		}
 		for _, fn := range []string{"parseCmd", "(*Conn).handleMail", "(*Conn).handleRcpt"} {
-			if g := c.A.Func(fn); g != nil && len(s.Find(g, "call:strings.TrimSpace")) > 0 {
-				trims = true
+			if g := c.A.Func(fn); g != nil {
+				scan(g, 0)
 			}
 		}
-		if trims {
+		if unicodeTrim || unknownTrim {
 			checkDisjoint(en, "white space the server trims from the end of the line (strings.TrimSpace)", func(v int64) bool { return unicode.IsSpace(rune(v)) })
+		}
+		if cutset != "" {
+			checkDisjoint(en, "the characters the server trims from the end of the line", func(v int64) bool { return v < 0x110000 && strings.ContainsRune(cutset, rune(v)) })
 		}
 		if en == "encodeXtext" {
 			if ok1 {
